@@ -94,6 +94,7 @@ func main() {
 	if *prop != "all" {
 		e.curProp = *prop
 	}
+	e.resolveScopes()
 	if len(e.loadErrs) > 0 {
 		// the tree does not type-check: nothing can be decided
 		for _, er := range e.loadErrs {
